@@ -210,6 +210,7 @@ func cmdCheck(args []string) int {
 	seed := fs.Int("seed", 0, "seed")
 	verbose := fs.Bool("v", false, "verbose")
 	noEvidence := fs.Bool("no-evidence", false, "do not write the evidence file (selftests)")
+	ff := fs.Bool("failfast", false, "selftests: stop discharging once an obligation has failed, skip the bounded stand-ins when a proof obligation failed")
 	fs.Parse(args)
 	if s := os.Getenv("VERIF_SEED"); s != "" {
 		if n, err := strconv.Atoi(s); err == nil {
@@ -222,6 +223,7 @@ func cmdCheck(args []string) int {
 		fmt.Fprintln(os.Stderr, "config:", err)
 		return 2
 	}
+	failFast = *ff && *noEvidence // only ever together with -no-evidence: a run that skips obligations writes no evidence
 	run := &checkRun{cfg: cfg, tier: *tier, seed: *seed, repo: *repo, verbose: *verbose, start: start, writeEvidence: !*noEvidence}
 	return run.run()
 }
@@ -413,6 +415,9 @@ func (r *checkRun) finish(w *World) int {
 			if o.TimeS > fmax {
 				fmax = o.TimeS
 			}
+			if o.Result == "skipped" {
+				continue
+			}
 			if o.Cover {
 				covers++
 				if o.Result != "vacuous" {
@@ -462,7 +467,10 @@ func (r *checkRun) finish(w *World) int {
 		}
 	}
 	// bounded stand-ins
-	bexit := r.runBounded()
+	bexit := 0
+	if !(failFast && exit == 1) {
+		bexit = r.runBounded()
+	}
 	if bexit == 1 {
 		exit = 1
 	}
